@@ -12,7 +12,7 @@ def chk(pid, technique, text, note, design):
 BASE_NOTE = ("Trusted base: vp/ref.py (exact Fraction reference, ~350 lines), Python fractions, Hypothesis generators; "
              "tolerances stated in DESIGN.md section 3. Absence of violations means 'held on everything generated', not proof.")
 
-CHECKS = [
+CHECKS_UNSORTED = [
  chk("C01", "property-based testing: generated shapes/parameters vs exact Cox-de Boor reference model (differential)",
      "Generated-input search over curve/surface/volume definitions (clamped/unclamped, repeated knots, affine ranges, rational) "
      "and parameters on/off knots; every evaluation entry point compared with an exact rational reference; grid size/order/corners checked.",
@@ -64,7 +64,20 @@ CHECKS = [
  chk("C20", "property-based testing: rays, winding number, hull, orientation, voxels and control-point lookup vs exact rational arithmetic",
      "Ray pairs constructed as crossing / parallel / coincident / skew; polygons and point sets on an integer grid vs exact winding number and monotone-chain hull; voxel fill flags vs sampled points with a 1e-6 ambiguity band; lookup vs exact active sets.",
      BASE_NOTE, "DESIGN.md 5/C20"),
+ chk("C12", "property-based testing: stateful histories of mutators and view reads vs a freshly built object with the same stored definition (model-based differential)",
+     "Generated histories (20 mutators incl. insertion/removal/refinement, reverse, transpose, flip, in-place transforms, redefinition, deep copy + edit) interleaved with reads of 9 derived views on curves/surfaces/volumes, and container histories (add, density, element edits, copies); every selected view must equal the view of a fresh object built from the current stored definition.",
+     BASE_NOTE + " One known finding (container caches vs element edits) is excluded by a history-class predicate.", "DESIGN.md 5/C12"),
+ chk("C14", "property-based testing: export/import round trips (JSON, smesh/vmesh, txt, csv, compatibility files) with independent file readers",
+     "Generated shapes and containers with pairwise different sizes, deltas and trims; imported definitions equal exported ones and evaluate identically; mesh/text file bodies parsed independently to assert the documented row/column layout.",
+     BASE_NOTE, "DESIGN.md 5/C14"),
+ chk("C15", "property-based testing: combinatorial mesh validity, vertices vs exact reference surface, trimmed coverage vs exact winding number, exported files vs independent parsers",
+     "Generated surfaces (any domain), sample sizes and vertex spacings; ids, edge incidence, Euler characteristic, orientation, uv-area; quad meshes; trimmed meshes compared with the trimmed region away from its boundary; OBJ/OFF/STL (ascii, binary) re-parsed and matched triangle by triangle.",
+     BASE_NOTE, "DESIGN.md 5/C15"),
+ chk("C17", "property-based testing: configuration differentials (span function, evaluator, normalize_kv, num_procs, cache size in fresh interpreters)",
+     "One generated geometry + query per case evaluated under several configurations; results must agree (1e-9 relative for equivalent arithmetic, exactly for num_procs and cache size); no configuration may make a valid call fail.",
+     BASE_NOTE + " Pool scheduling is not controlled; only results are compared.", "DESIGN.md 5/C17"),
 ]
+CHECKS = sorted(CHECKS_UNSORTED, key=lambda c: c["property_id"])
 DONE = set(c["property_id"] for c in CHECKS)
 NOT_APPLICABLE = [{"property_id": p, "reason": "check not built yet in this revision (work in progress; PBT applies, see DESIGN.md section 5)"}
                   for p in ALL if p not in DONE]
